@@ -274,4 +274,156 @@ theorem tauf_loop_fixed (taup es e2m stol τ : ℝ) (h : taupf τ es = taup) (n 
       simp [taufDelta, h]
     simp only [taufLoop, hd, add_zero, ih, ite_self]
 
+/-! ## Divided differences: each helper is `(g x − g y)/(x − y)` for `x ≠ y` -/
+
+/-- `Dhyp` is the divided difference of `hyp x = √(1+x²)` -/
+theorem Dhyp_dd (x y : ℝ) (hxy : x ≠ y) : Dhyp x y (hyp x) (hyp y) = (hyp x - hyp y) / (x - y) := by
+  have hx := hyp_sq x; have hy := hyp_sq y
+  have px := hyp_pos x; have py := hyp_pos y
+  have h1 : hyp x + hyp y ≠ 0 := by positivity
+  have h2 : x - y ≠ 0 := sub_ne_zero.mpr hxy
+  unfold Dhyp
+  rw [div_eq_div_iff h1 h2]
+  linear_combination hy - hx
+
+/-- at `x = y` it is the derivative `x/hyp x` -/
+theorem Dhyp_diag (x : ℝ) : Dhyp x x (hyp x) (hyp x) = x / hyp x := by
+  have px := hyp_pos x
+  unfold Dhyp
+  field_simp
+
+/-- `Dsn` is the divided difference of `sn x = x/√(1+x²)` (both headers) -/
+theorem Dsn_dd (x y : ℝ) (hxy : x ≠ y) : Dsn x y (x / hyp x) (y / hyp y) = (x / hyp x - y / hyp y) / (x - y) := by
+  have hx := hyp_sq x; have hy := hyp_sq y
+  have px := hyp_pos x; have py := hyp_pos y
+  have h2 : x - y ≠ 0 := sub_ne_zero.mpr hxy
+  unfold Dsn
+  simp only [ltb_real, eqb_real, zero_real, one_real, sq_real]
+  by_cases ht : 0 < x * y
+  · simp only [ht, decide_true, if_true]
+    have hx0 : x ≠ 0 := fun h => by simp [h] at ht
+    have hy0 : y ≠ 0 := fun h => by simp [h] at ht
+    have hs : x / hyp x + y / hyp y ≠ 0 := by
+      rcases mul_pos_iff.mp ht with ⟨hxp, hyp'⟩ | ⟨hxn, hyn⟩
+      · have : 0 < x / hyp x + y / hyp y := by positivity
+        exact this.ne'
+      · have h1 : x / hyp x < 0 := div_neg_of_neg_of_pos hxn px
+        have h2' : y / hyp y < 0 := div_neg_of_neg_of_pos hyn py
+        linarith
+    rw [div_eq_div_iff hs h2]
+    have e1 : x / hyp x * (y / hyp y) / (x * y) = 1 / (hyp x * hyp y) := by field_simp
+    rw [e1]
+    have hxx : hyp x ≠ 0 := px.ne'
+    have hyy : hyp y ≠ 0 := py.ne'
+    field_simp
+    ring_nf
+    rw [hx, hy]
+    ring
+  · simp only [ht, decide_false, Bool.false_eq_true, if_false, h2, Bool.not_false, if_true]
+
+/-- over the reals `Dlog1p` is the divided difference of `log(1 + ·)` on `(−1, ∞)` -/
+theorem Dlog1p_dd (x y : ℝ) (hx : -1 < x) (hy : -1 < y) (hxy : x ≠ y) :
+    Dlog1p x y = (Real.log (1 + x) - Real.log (1 + y)) / (x - y) := by
+  have px : (0 : ℝ) < 1 + x := by linarith
+  have py : (0 : ℝ) < 1 + y := by linarith
+  unfold Dlog1p
+  simp only [ltb_real, eqb_real, zero_real, one_real, log1p_real]
+  by_cases hlt : x - y < 0
+  · simp only [hlt, decide_true, if_true]
+    have hne : -(x - y) ≠ 0 := by linarith
+    simp only [hne, decide_false, Bool.not_false, if_true]
+    have e : 1 + -(x - y) / (1 + x) = (1 + y) / (1 + x) := by field_simp; ring
+    rw [e, Real.log_div py.ne' px.ne']
+    have h2 : x - y ≠ 0 := hlt.ne
+    field_simp
+    ring
+  · simp only [hlt, decide_false, Bool.false_eq_true, if_false]
+    have h2 : x - y ≠ 0 := sub_ne_zero.mpr hxy
+    simp only [h2, decide_false, Bool.not_false, if_true]
+    have e : 1 + (x - y) / (1 + y) = (1 + x) / (1 + y) := by field_simp; ring
+    rw [e, Real.log_div px.ne' py.ne']
+
+/-- `Dexp` is the divided difference of `exp` -/
+theorem Dexp_dd (x y : ℝ) (hxy : x ≠ y) : Dexp x y = (Real.exp x - Real.exp y) / (x - y) := by
+  have h2 : x - y ≠ 0 := sub_ne_zero.mpr hxy
+  have ht : (x - y) / 2 ≠ 0 := by
+    intro h; apply h2; linarith
+  unfold Dexp
+  simp only [eqb_real, zero_real, one_real, two_real, sinh_real, exp_real, ht, decide_false, Bool.not_false, if_true]
+  rw [Real.sinh_eq]
+  have e1 : Real.exp x = Real.exp ((x + y) / 2) * Real.exp ((x - y) / 2) := by rw [← Real.exp_add]; congr 1; ring
+  have e2 : Real.exp y = Real.exp ((x + y) / 2) * Real.exp (-((x - y) / 2)) := by rw [← Real.exp_add]; congr 1; ring
+  rw [e1, e2]
+  field_simp
+
+/-- `Dsinh` is the divided difference of `sinh` (given `sinh` and `cosh` of both arguments) -/
+theorem Dsinh_dd (x y : ℝ) (hxy : x ≠ y) :
+    Dsinh x y (Real.sinh x) (Real.sinh y) (Real.cosh x) (Real.cosh y) = (Real.sinh x - Real.sinh y) / (x - y) := by
+  have h2 : x - y ≠ 0 := sub_ne_zero.mpr hxy
+  have ht : (x - y) / 2 ≠ 0 := by
+    intro h; apply h2; linarith
+  unfold Dsinh
+  simp only [eqb_real, zero_real, one_real, two_real, sinh_real, sqrt_real, ht, decide_false, Bool.not_false, if_true]
+  set u := (x + y) / 2 with hu
+  set v := (x - y) / 2 with hv
+  have ex : x = u + v := by rw [hu, hv]; ring
+  have ey : y = u - v := by rw [hu, hv]; ring
+  have hc : Real.sinh x * Real.sinh y + Real.cosh x * Real.cosh y = Real.cosh (2 * u) := by
+    have : 2 * u = x + y := by rw [hu]; ring
+    rw [this, Real.cosh_add]; ring
+  have hsq : (Real.sinh x * Real.sinh y + Real.cosh x * Real.cosh y + 1) / 2 = Real.cosh u ^ 2 := by
+    rw [hc, Real.cosh_two_mul]
+    have := Real.cosh_sq u
+    linear_combination (-1 / 2 : ℝ) * this
+  rw [hsq, Real.sqrt_sq (Real.cosh_pos u).le]
+  have hd : Real.sinh x - Real.sinh y = 2 * Real.sinh v * Real.cosh u := by
+    rw [ex, ey, Real.sinh_add, Real.sinh_sub]; ring
+  have hxy2 : x - y = 2 * v := by rw [hv]; ring
+  rw [hd, hxy2]
+  field_simp
+
+/-- the hyperbolic cosine the code passes is `hyp (sinh x)` -/
+theorem hyp_sinh (x : ℝ) : hyp (Real.sinh x) = Real.cosh x := by
+  rw [hyp_real]
+  have h := Real.cosh_sq x
+  have : 1 + Real.sinh x ^ 2 = Real.cosh x ^ 2 := by linarith
+  rw [this, Real.sqrt_sq (Real.cosh_pos x).le]
+
+/-- `arsinh x − arsinh y = arsinh (x hyp y − y hyp x)` -/
+theorem arsinh_sub (x y : ℝ) : Real.arsinh x - Real.arsinh y = Real.arsinh (x * hyp y - y * hyp x) := by
+  have h : Real.sinh (Real.arsinh x - Real.arsinh y) = x * hyp y - y * hyp x := by
+    rw [Real.sinh_sub, Real.sinh_arsinh, Real.sinh_arsinh, Real.cosh_arsinh, Real.cosh_arsinh, hyp_real, hyp_real]
+    ring
+  rw [← h, Real.arsinh_sinh]
+
+/-- `Dasinh` is the divided difference of `arsinh` -/
+theorem Dasinh_dd (x y : ℝ) (hxy : x ≠ y) :
+    Dasinh x y (hyp x) (hyp y) = (Real.arsinh x - Real.arsinh y) / (x - y) := by
+  have hx := hyp_sq x; have hy := hyp_sq y
+  have px := hyp_pos x; have py := hyp_pos y
+  have h2 : x - y ≠ 0 := sub_ne_zero.mpr hxy
+  unfold Dasinh
+  simp only [eqb_real, ltb_real, zero_real, one_real, asinh_real, h2, decide_false, Bool.not_false, if_true]
+  rw [arsinh_sub]
+  by_cases ht : 0 < x * y
+  · simp only [ht, decide_true, if_true]
+    have hs : x * hyp y + y * hyp x ≠ 0 := by
+      rcases mul_pos_iff.mp ht with ⟨hxp, hyp'⟩ | ⟨hxn, hyn⟩
+      · have : 0 < x * hyp y + y * hyp x := by positivity
+        exact this.ne'
+      · have h1 : x * hyp y < 0 := mul_neg_of_neg_of_pos hxn py
+        have h2' : y * hyp x < 0 := mul_neg_of_neg_of_pos hyn px
+        linarith
+    have e : (x - y) * (x + y) / (x * hyp y + y * hyp x) = x * hyp y - y * hyp x := by
+      rw [div_eq_iff hs]
+      ring_nf
+      rw [hx, hy]
+      ring
+    rw [e]
+  · simp only [ht, decide_false, Bool.false_eq_true, if_false]
+
+/-- at `x = y`: the derivative `1/hyp x` -/
+theorem Dasinh_diag (x : ℝ) : Dasinh x x (hyp x) (hyp x) = 1 / hyp x := by
+  simp [Dasinh, eqb_real, zero_real, one_real]
+
 end GeoVerif.Props.C11
